@@ -35,6 +35,7 @@ def build_universe(base, links=(), extra_files=()):
         with open(p, "w") as fh:
             fh.write(marker(rel) + "\nsecond line\n")
     root = os.path.join(T, "root")
+    os.symlink("root", os.path.join(T, "rootlink"))        # the root can be handed to a context as a symlink
     for loc, target in links:
         os.symlink(target.replace("{T}", T).replace("{B}", P), os.path.join(root, loc))
     return T, root
@@ -228,41 +229,75 @@ def purge_components(comps, names=()):
         dr.ENABLED.pop(c, None)
         dr.IGNORE.pop(c, None)
         dr.HIDDEN.discard(c)
-        filters.FILTERS.pop(c, None)
-        filters._CACHE.pop(c, None)
+        for tbl in _filter_dicts(filters):      # FILTERS and whatever look-up caches the module keeps
+            tbl.pop(c, None)
     for n in names:
         dr.COMPONENTS_BY_NAME.pop(n, None)
         dr.COMPONENT_IMPORT_CACHE.pop(n, None)
 
 
+def _module_tables(mod):
+    """Module-level mutable containers (set / list / dict), found generically: no private name is spelled out here,
+    so a refactoring that renames or adds a table does not break the snapshot."""
+    out = {}
+    for k, v in vars(mod).items():
+        if k.startswith("__"):
+            continue
+        if isinstance(v, (set, list, dict)):
+            out[k] = v
+    return out
+
+
+_FD = []
+
+
+def _filter_dicts(filters):
+    """dict-typed tables of the filters module, looked up once per process (hot path of the containment part; a stale
+    entry keyed by a dead harness component is harmless)."""
+    if not _FD:
+        _FD.extend(t for t in _module_tables(filters).values() if isinstance(t, dict))
+    return _FD
+
+
+def _copy(v):
+    if isinstance(v, dict):
+        return dict((k, (_copy(x) if isinstance(x, (set, list, dict)) else x)) for k, x in v.items())
+    return type(v)(v)
+
+
+def _restore(tbl, old):
+    if isinstance(tbl, dict):
+        tbl.clear()
+        tbl.update(_copy(old))
+    elif isinstance(tbl, set):
+        tbl.clear()
+        tbl.update(old)
+    else:
+        del tbl[:]                      # in place: other modules import the same list object
+        tbl.extend(old)
+
+
 class GlobalState(object):
-    """Snapshot / restore of the deny-list tables, BLACKLISTED_SPECS, dr.ENABLED and the filter tables."""
+    """Snapshot / restore of every module-level table of insights.core.blacklist and insights.core.filters
+    (deny tables, BLACKLISTED_SPECS, filter registry and caches), of dr.ENABLED and of the by-name look-up caches."""
 
     def __enter__(self):
         from insights.core import blacklist, dr, filters
-        self.bl = (set(blacklist._FILE_FILTERS), set(blacklist._COMMAND_FILTERS),
-                   set(blacklist._PATTERN_FILTERS), set(blacklist._KEYWORD_FILTERS),
-                   list(blacklist.BLACKLISTED_SPECS))
+        self.saved = []
+        for mod in (blacklist, filters):
+            for k, tbl in _module_tables(mod).items():
+                self.saved.append((tbl, _copy(tbl)))
         self.enabled = dict(dr.ENABLED)
-        self.filters = dict((k, dict(v)) for k, v in filters.FILTERS.items())
         self.by_name = set(dr.COMPONENTS_BY_NAME)
         self.imp = set(dr.COMPONENT_IMPORT_CACHE)
         return self
 
     def __exit__(self, *exc):
-        from insights.core import blacklist, dr, filters
-        for tbl, old in zip((blacklist._FILE_FILTERS, blacklist._COMMAND_FILTERS,
-                             blacklist._PATTERN_FILTERS, blacklist._KEYWORD_FILTERS), self.bl[:4]):
-            tbl.clear()
-            tbl.update(old)
-        del blacklist.BLACKLISTED_SPECS[:]          # same list object is imported by dr
-        blacklist.BLACKLISTED_SPECS.extend(self.bl[4])
+        from insights.core import dr
+        for tbl, old in self.saved:
+            _restore(tbl, old)
         dr.ENABLED.clear()
         dr.ENABLED.update(self.enabled)
-        filters.FILTERS.clear()
-        for k, v in self.filters.items():
-            filters.FILTERS[k] = v
-        filters._CACHE.clear()
         for n in set(dr.COMPONENTS_BY_NAME) - self.by_name:
             dr.COMPONENTS_BY_NAME.pop(n, None)
         for n in set(dr.COMPONENT_IMPORT_CACHE) - self.imp:
